@@ -75,6 +75,21 @@ fn inputs() -> Vec<Input> {
             }
             x.into_bytes()
         }),
+        // well-formed XML in UTF-16 with a byte order mark: not UTF-8, so the input is at fault
+        Input::File(s("utf16-le-with-bom"), {
+            let mut b = vec![0xFF, 0xFE];
+            for u in "<a b=\"c\">d</a>".encode_utf16() {
+                b.extend_from_slice(&u.to_le_bytes());
+            }
+            b
+        }),
+        Input::File(s("utf16-be-with-bom"), {
+            let mut b = vec![0xFE, 0xFF];
+            for u in "<a><b/></a>".encode_utf16() {
+                b.extend_from_slice(&u.to_be_bytes());
+            }
+            b
+        }),
         // the same program with unusual (but ordinary) input paths; see file_name_of
         Input::File(s("valid-comma-in-path"), b"<cars y=\"2024\"><car id=\"1\"/><car/></cars>".to_vec()),
         Input::File(s("valid-non-ascii-path"), b"<r><a>t</a></r>".to_vec()),
@@ -89,7 +104,7 @@ fn inputs() -> Vec<Input> {
 const PARSERS: &[Option<&str>] = &[None, Some("quick-xml-de"), Some("serde-xml-rs")];
 const DERIVES: &[Option<&str>] = &[None, Some("Debug"), Some(""), Some("Clone, Debug"), Some("Debug,Clone"), Some(" Debug , Clone,"), Some("serde::Serialize, ::core::fmt::Debug, PartialEq<Self>")];
 const SORTS: &[Option<&str>] = &[None, Some("unsorted"), Some("name")];
-const OUTPUTS: &[&str] = &["stdout", "new-file", "existing-file", "missing-directory", "is-directory", "existing-file-same-length", "file-named-dash", "existing-empty-file", "dev-null"];
+const OUTPUTS: &[&str] = &["stdout", "new-file", "existing-file", "missing-directory", "is-directory", "existing-file-same-length", "file-named-dash", "existing-empty-file", "dev-null", "long-file-name", "symlink-to-existing-file", "directory-named-like-output-plus-tmp"];
 const HEADER: &str = "use serde::{Deserialize, Serialize};\n\n";
 /// longer than any rendering of the inputs, so that a missing truncation shows
 const OLD_CONTENT: &[u8] = &[b'/'; 6000];
@@ -156,8 +171,18 @@ fn decode(mut i: u64, n_inputs: usize) -> Case {
     Case { input: (i as usize) % n_inputs, parser, derive, sort, output }
 }
 
+/// bits 40.. of a case index select how the same command line is spelled
+const SPELLING_SHIFT: u32 = 40;
+const SPELLINGS: &[&str] = &[
+    "long options with separate values before the paths",
+    "short options with attached values after the paths",
+    "long options with = before the paths",
+    "short options with separate values between the two paths",
+];
+
 fn run_case(ctx: &Ctx, bin: &Path, all: &[Input], idx: u64, work: &Path) -> Vec<Violation> {
-    let c = decode(idx, all.len());
+    let spelling = (idx >> SPELLING_SHIFT) as usize;
+    let c = decode(idx & ((1 << SPELLING_SHIFT) - 1), all.len());
     let input = &all[c.input];
     let dir = work.join(format!("case{}", idx));
     let _ = std::fs::remove_dir_all(&dir);
@@ -182,15 +207,32 @@ fn run_case(ctx: &Ctx, bin: &Path, all: &[Input], idx: u64, work: &Path) -> Vec<
     }
     let mut cmd = Command::new(bin);
     cmd.current_dir(&dir).env_remove("RUST_LOG");
-    if let Some(p) = PARSERS[c.parser] {
-        cmd.args(["--parser", p]);
+    let flags: Vec<(&str, &str, &str)> = [("--parser", "-p", PARSERS[c.parser]), ("--derive", "-d", DERIVES[c.derive]), ("--sort", "-s", SORTS[c.sort])]
+        .iter()
+        .filter_map(|(l, sh, v)| v.map(|v| (*l, *sh, v)))
+        .collect();
+    let mut before: Vec<String> = Vec::new();
+    let mut between: Vec<String> = Vec::new();
+    let mut after: Vec<String> = Vec::new();
+    for (long, short, v) in &flags {
+        match spelling {
+            0 => {
+                before.push(long.to_string());
+                before.push(v.to_string());
+            }
+            1 if !v.is_empty() => after.push(format!("{}{}", short, v)),
+            1 => {
+                after.push(short.to_string());
+                after.push(v.to_string());
+            }
+            2 => before.push(format!("{}={}", long, v)),
+            _ => {
+                between.push(short.to_string());
+                between.push(v.to_string());
+            }
+        }
     }
-    if let Some(d) = DERIVES[c.derive] {
-        cmd.args(["--derive", d]);
-    }
-    if let Some(s) = SORTS[c.sort] {
-        cmd.args(["--sort", s]);
-    }
+    cmd.args(&before);
     match input {
         Input::Pipe(..) => {
             cmd.arg("/dev/stdin");
@@ -200,6 +242,7 @@ fn run_case(ctx: &Ctx, bin: &Path, all: &[Input], idx: u64, work: &Path) -> Vec<
             cmd.arg(&in_path);
         }
     }
+    cmd.args(&between);
     let out_path: Option<PathBuf> = match OUTPUTS[c.output] {
         "stdout" => None,
         "new-file" => Some(dir.join("out.rs")),
@@ -226,6 +269,19 @@ fn run_case(ctx: &Ctx, bin: &Path, all: &[Input], idx: u64, work: &Path) -> Vec<
             let _ = Command::new("touch").args(["-d", "2001-01-01 00:00:00"]).arg(&p).status();
             Some(p)
         }
+        "long-file-name" => Some(dir.join(format!("{}.rs", "o".repeat(250)))),
+        "symlink-to-existing-file" => {
+            let real = dir.join("real.rs");
+            let _ = std::fs::write(&real, OLD_CONTENT);
+            let _ = Command::new("touch").args(["-d", "2001-01-01 00:00:00"]).arg(&real).status();
+            let p = dir.join("out.rs");
+            let _ = std::os::unix::fs::symlink("real.rs", &p);
+            Some(p)
+        }
+        "directory-named-like-output-plus-tmp" => {
+            let _ = std::fs::create_dir_all(dir.join("out.rs.tmp"));
+            Some(dir.join("out.rs"))
+        }
         "missing-directory" => Some(dir.join("no/such/dir/out.rs")),
         _ => {
             let p = dir.join("outdir");
@@ -236,6 +292,7 @@ fn run_case(ctx: &Ctx, bin: &Path, all: &[Input], idx: u64, work: &Path) -> Vec<
     if let Some(p) = &out_path {
         cmd.arg(p);
     }
+    cmd.args(&after);
     let mtime_before = out_path.as_ref().and_then(|p| std::fs::metadata(p).ok()).and_then(|m| m.modified().ok());
     cmd.stdout(std::process::Stdio::piped()).stderr(std::process::Stdio::piped());
     let output = match cmd.spawn().and_then(|mut child| {
@@ -255,8 +312,9 @@ fn run_case(ctx: &Ctx, bin: &Path, all: &[Input], idx: u64, work: &Path) -> Vec<
     };
     let want = expected_text(input, PARSERS[c.parser], DERIVES[c.derive], SORTS[c.sort]);
     let label = format!(
-        "input={} parser={:?} derive={:?} sort={:?} output={}",
-        name_of(input), PARSERS[c.parser], DERIVES[c.derive], SORTS[c.sort], OUTPUTS[c.output]
+        "input={} parser={:?} derive={:?} sort={:?} output={}{}",
+        name_of(input), PARSERS[c.parser], DERIVES[c.derive], SORTS[c.sort], OUTPUTS[c.output],
+        if spelling == 0 { String::new() } else { format!(" [{}]", SPELLINGS[spelling.min(SPELLINGS.len() - 1)]) }
     );
     let mut vs = Vec::new();
     let mut bad = |class: &str, msg: String| {
@@ -269,7 +327,7 @@ fn run_case(ctx: &Ctx, bin: &Path, all: &[Input], idx: u64, work: &Path) -> Vec<
     };
     let code = output.status.code();
     let stdout = output.stdout.clone();
-    let creatable = matches!(OUTPUTS[c.output], "stdout" | "new-file" | "existing-file" | "existing-file-same-length" | "file-named-dash" | "existing-empty-file" | "dev-null");
+    let creatable = matches!(OUTPUTS[c.output], "stdout" | "new-file" | "existing-file" | "existing-file-same-length" | "file-named-dash" | "existing-empty-file" | "dev-null" | "long-file-name" | "symlink-to-existing-file" | "directory-named-like-output-plus-tmp");
     match (&want, creatable) {
         (Some(text), true) => {
             if code != Some(0) {
@@ -293,6 +351,16 @@ fn run_case(ctx: &Ctx, bin: &Path, all: &[Input], idx: u64, work: &Path) -> Vec<
                         Ok(b) => bad("file-content", format!("output file holds {:?} but should hold {:?}", String::from_utf8_lossy(&b), text)),
                         Err(e) => bad("file-content", format!("output file unreadable: {}", e)),
                     }
+                    if OUTPUTS[c.output] == "symlink-to-existing-file" {
+                        let still_link = std::fs::symlink_metadata(p).map(|m| m.file_type().is_symlink()).unwrap_or(false);
+                        let real = std::fs::read(dir.join("real.rs")).unwrap_or_default();
+                        if !still_link || real != text.as_bytes() {
+                            bad("file-content", "the output path is a symbolic link to an existing file: the link must stay and the file it names must receive the output".into());
+                        }
+                    }
+                    if OUTPUTS[c.output] == "directory-named-like-output-plus-tmp" && !dir.join("out.rs.tmp").is_dir() {
+                        bad("file-content", "an unrelated directory next to the output file was removed or replaced".into());
+                    }
                 }
             }
         }
@@ -309,12 +377,12 @@ fn run_case(ctx: &Ctx, bin: &Path, all: &[Input], idx: u64, work: &Path) -> Vec<
             }
             if want.is_none() {
                 match OUTPUTS[c.output] {
-                    "new-file" | "missing-directory" | "file-named-dash" => {
+                    "new-file" | "missing-directory" | "file-named-dash" | "long-file-name" | "directory-named-like-output-plus-tmp" => {
                         if out_path.as_ref().map(|p| dir.join(p).exists()).unwrap_or(false) {
                             bad("output-created", "the output file was created although the input was at fault".into());
                         }
                     }
-                    "existing-file" | "existing-file-same-length" | "existing-empty-file" => {
+                    "existing-file" | "existing-file-same-length" | "existing-empty-file" | "symlink-to-existing-file" => {
                         let p = out_path.as_ref().unwrap();
                         let same = std::fs::read(p).map(|b| b == OLD_CONTENT || b.iter().all(|x| *x == b'#')).unwrap_or(false);
                         let mtime_after = std::fs::metadata(p).ok().and_then(|m| m.modified().ok());
@@ -340,17 +408,24 @@ pub fn run(ctx: &Ctx) {
     let _ = std::fs::remove_dir_all(&work);
     let all = inputs();
     let total = (all.len() * PARSERS.len() * DERIVES.len() * SORTS.len() * OUTPUTS.len()) as u64;
+    // the full product with the first spelling of the command line; the other spellings for the outputs
+    // stdout, new file and a file named `-`
     let res = par_for(
-        total,
+        total * SPELLINGS.len() as u64,
         ctx.threads,
         8,
         Some(ctx.deadline),
         |_| (0u64, 0u64),
-        |acc, i| {
+        |acc, k| {
+            let spelling = k / total;
+            let c = decode(k % total, all.len());
+            if spelling > 0 && !matches!(OUTPUTS[c.output], "stdout" | "new-file" | "file-named-dash") {
+                return;
+            }
+            let i = (k % total) | (spelling << SPELLING_SHIFT);
             let vs = run_case(ctx, &bin, &all, i, &work);
             ctx.report_all(vs);
             acc.0 += 1;
-            let c = decode(i, all.len());
             if expected_text(&all[c.input], PARSERS[c.parser], DERIVES[c.derive], SORTS[c.sort]).is_none() || c.output == 3 || c.output == 4 {
                 acc.1 += 1;
             }
@@ -409,15 +484,15 @@ pub fn run(ctx: &Ctx) {
     );
     let _ = std::fs::remove_dir_all(&work);
     ctx.set("edited_inputs", json!({"inputs": edited.len(), "runs": res3.processed}));
-    ctx.set("evaluations", json!(res.processed + res2.processed + res3.processed));
+    ctx.set("evaluations", json!(res.accs.iter().map(|a| a.0).sum::<u64>() + res2.processed + res3.processed));
     ctx.set("distinct_nontrivial", json!(res.accs.iter().map(|a| a.1).sum::<u64>()));
     ctx.set("exhaustive", json!(res.complete && res2.complete && res3.complete));
     ctx.set("further_valid_inputs", json!({"inputs": extra.len(), "runs": res2.processed, "flags": "parser x sort, derive default, output stdout / new file"}));
     ctx.set("inputs", json!(all.iter().map(name_of).collect::<Vec<_>>()));
-    ctx.set("dimensions", json!({"inputs": all.len(), "parser": PARSERS.len(), "derive": DERIVES.len(), "sort": SORTS.len(), "output": OUTPUTS.len()}));
+    ctx.set("dimensions", json!({"inputs": all.len(), "parser": PARSERS.len(), "derive": DERIVES.len(), "sort": SORTS.len(), "output": OUTPUTS.len(), "spellings": SPELLINGS}));
     ctx.set(
         "rule",
-        json!("the full product input x --parser x --derive x --sort x output target, every combination executed on the real binary (built from /repo's working tree, hooks off) in a fresh directory; success: exit 0 and exactly header + library rendering (computed in-process with the corresponding Options) in the file with empty stdout, or on stdout followed by one newline; failure (input unreadable / not UTF-8 / rejected, or output not creatable): exit 1, empty stdout, non-empty stderr, and the named output file neither created nor modified when the input was at fault. distinct_nontrivial = combinations with a fault (input at fault or output not creatable), all distinct by construction"),
+        json!("the full product input x --parser x --derive x --sort x output target (and, for the outputs stdout / new file / file named `-`, x four spellings of the same command line: separate long options, attached short options after the paths, --long=value, short options between the paths), every combination executed on the real binary (built from /repo's working tree, hooks off) in a fresh directory; success: exit 0 and exactly header + library rendering (computed in-process with the corresponding Options) in the file with empty stdout, or on stdout followed by one newline; failure (input unreadable / not UTF-8 / rejected, or output not creatable): exit 1, empty stdout, non-empty stderr, and the named output file neither created nor modified when the input was at fault. distinct_nontrivial = combinations with a fault (input at fault or output not creatable), all distinct by construction"),
     );
     ctx.assume("argument-parsing errors (clap, exit 2) and write errors after a successful create are outside the enumerated space");
 }
